@@ -57,7 +57,8 @@ def correspondence(ctx):
 
 
 def search_broken(ctx):
-    return []
+    # the obligations of this property rest on the data certificate: turn its witnesses into requests
+    return D.data_witness_probe(PID, ("InventoryHP",))
 
 
 def replay(payload):
